@@ -123,6 +123,7 @@ func (d *drv) scenario(in c02.Input) *c02.Scen {
 			e.BuildChecks(s, v.Parts)
 		}
 		e.ArgSliceChecks(s, v.Parts)
+		e.MutationBuilt(s, v.Parts, "built")
 		fin := map[string]any{"scenario": in, "path": v.Parts}
 		if !in.Cfg && in.SetAfter == 0 {
 			// package-level constructors pin the LIVE package default, which is this merklizer's hasher
